@@ -346,8 +346,21 @@ def baseline_formats():
     return sorted(f.name for f in extension_loader.MANAGER.formatters if hasattr(f.plugin, "_accepts_baseline"))
 
 
+_carrier = [0]
+
+
 def run_cli_baseline(world, fmt, sev, conf, exit_zero=False):
-    argv = ["-f", fmt, "-b", world.rep] + SEV_FLAG[sev] + CONF_FLAG[conf] + (["--exit-zero"] if exit_zero else [])
+    # the baseline reaches the run through -b, or (every third call) through the `baseline` option of an INI file given with --ini: the same option by another
+    # carrier (seeded change C07-m16 decided "is there a baseline?" before the INI options were merged: an INI-supplied baseline was resolved but never loaded)
+    _carrier[0] += 1
+    if _carrier[0] % 3 == 0:
+        ini = world.rep + ".ini"
+        with open(ini, "w") as fh:
+            fh.write("[bandit]\nbaseline = %s\n" % world.rep)
+        how = ["--ini", ini]
+    else:
+        how = ["-b", world.rep]
+    argv = ["-f", fmt] + how + SEV_FLAG[sev] + CONF_FLAG[conf] + (["--exit-zero"] if exit_zero else [])
     if fmt == "custom":
         argv += ["--msg-template", CUSTOM_TMPL]
     return C.run_cli(argv + world.paths)
@@ -627,6 +640,11 @@ def cross_process_self_baseline(res):
                               "hardcoded-passwords.py", "sql_statements.py", "tarfile_extractall.py", "mark_safe_insecure.py") if os.path.exists(os.path.join(ex, f))]
         for f in picked:
             shutil.copy(os.path.join(ex, f), os.path.join(d, f))
+        # messages and excerpts with non-ASCII text: the report is written by one process and read by another, possibly under another locale (seeded change C07-m15
+        # wrote the JSON report unescaped while the baseline reader still opens it with the locale's preferred encoding: under LC_ALL=C the -b run died)
+        with open(os.path.join(d, "nonascii_messages.py"), "w", encoding="utf-8") as fh:
+            fh.write("db_password = 'p\u00e4ssw\u00f6rd'  # gepr\u00fcft\ntoken = '\u043a\u043b\u044e\u0447'\nsecret = '\u79d8\u5bc6'\n")
+        picked.append("nonascii_messages.py")
         base = os.path.join(d, "base.json")
         rc, so, se = c08.cli_subprocess(["-r", ".", "-f", "json", "-o", base, "-q"], d, 0)
         try:
@@ -650,6 +668,32 @@ def cross_process_self_baseline(res):
                 res.violation("unchanged code scanned against its own baseline in another process (another hash seed) reports findings",
                               {"files (copies of bandit's examples)": picked, "baseline_written_under_PYTHONHASHSEED": 0, "rescan_under_PYTHONHASHSEED": seed, "baseline_findings": n_base, "exit": rc,
                                "reported": [[x["test_id"], os.path.basename(x["filename"]), x["line_number"], x["issue_text"][:120]] for x in (new or [])][:8]})
+        # the same under another locale: baseline written under the C locale and read under UTF-8, and the reverse
+        def cli_env(args, env_extra):
+            env = dict(os.environ, PYTHONHASHSEED="0", **env_extra)
+            p = subprocess.run([sys.executable, "-c", "import sys; sys.path[:0]=%r; from bandit.cli.main import main; main()" % ([os.environ["PYTHONPATH"].split(os.pathsep)[0], C.REPO],)] + args,
+                               cwd=d, env=env, capture_output=True, text=True, errors="replace", timeout=300)
+            return p.returncode, p.stdout, p.stderr
+        LOCALES = {"C": {"LC_ALL": "C", "LANG": "C", "PYTHONUTF8": "0", "PYTHONCOERCECLOCALE": "0"}, "utf8-mode": {"PYTHONUTF8": "1"}}
+        for wl, rl in (("C", "C"), ("utf8-mode", "C"), ("C", "utf8-mode")):
+            b2 = os.path.join(os.path.dirname(d), os.path.basename(d) + ".loc.json")
+            rcw, _, sew = cli_env(["-r", ".", "-f", "json", "-o", b2, "-q"], LOCALES[wl])
+            out = os.path.join(d, "rescan.json")
+            if os.path.exists(out):
+                os.remove(out)
+            rc, so, se = cli_env(["-r", ".", "-f", "json", "-b", b2, "-o", out, "-q"], LOCALES[rl])
+            res.case(("cross-process-self-baseline-locale", wl, rl), True)
+            res.count("cross-process-self-baseline-locale")
+            try:
+                new = json.load(open(out, encoding="utf-8"))["results"]
+            except Exception:
+                new = None
+            if new is None or new or rc != 0:
+                res.violation("unchanged code scanned against its own baseline in another process under another locale: findings reported, or no report at all",
+                              {"files": picked, "baseline_written_under": LOCALES[wl], "rescan_under": LOCALES[rl], "exit_of_writer": rcw, "exit": rc, "stderr_tail": se[-300:],
+                               "reported": [[x["test_id"], os.path.basename(x["filename"]), x["line_number"], x["issue_text"][:80]] for x in (new or [])][:8]})
+            if os.path.exists(b2):
+                os.remove(b2)
         os.remove(base)
     finally:
         shutil.rmtree(d, ignore_errors=True)
